@@ -110,6 +110,9 @@ func (DefaultPodSpecExtractor) HasPodSpec(gr schema.GroupResource) bool {
 }
 
 func (DefaultPodSpecExtractor) ExtractPodSpec(obj runtime.Object) (*metav1.ObjectMeta, *corev1.PodSpec, error) {
+	if obj == nil {
+		return nil, nil, fmt.Errorf("unexpected nil object")
+	}
 	switch o := obj.(type) {
 	case *corev1.Pod:
 		return &o.ObjectMeta, &o.Spec, nil
